@@ -32,6 +32,7 @@ func runC10(c *Ctx) {
 	c10R4(c)
 	interpreterState(c, "R6")
 	entryArgsReadOnly(c, "R7")
+	inputReaderOnlyDecoded(c, "R9")
 	c.shared("R8", "C14/R2", "the output is a function of the input bytes, not of the kind of file they come from: the interpreter's decoder reads the opened file (or standard input) itself — no read-ahead sized by Stat(), which a pipe, a device or a file that grows answers differently", keyHas("input-files", "stdin-only", "reader-wrapper", "stdout"), c14R2)
 }
 
@@ -646,4 +647,47 @@ func readOnlyAddr(a ssa.Value, inInit bool) bool {
 		}
 	}
 	return true
+}
+
+// inputReaderOnlyDecoded (R9): the readers handed to the interpreter belong to the caller. The
+// interpreter gives each to a JSON decoder and does nothing else with it — it does not ask what else
+// the reader can do (io.Closer, io.Seeker) and act on it, which makes a run depend on the reader's
+// dynamic type and leaves the caller's handle in another state for the next run.
+func inputReaderOnlyDecoded(c *Ctx, rule string) {
+	p := c.P
+	c.note("%s input-reader-only-decoded: in package lang every use of a value loaded from InputFile.Reader is as the argument of encoding/json.NewDecoder; no type assertion on it, no method invoked on it, no copy kept.", rule)
+	n := 0
+	for _, fn := range p.Funcs {
+		if !p.InLang(fn) || p.inTestFile(fn) {
+			continue
+		}
+		allInstrs(fn, func(in ssa.Instruction) {
+			v, ok := in.(ssa.Value)
+			if !ok {
+				return
+			}
+			sf, isF := loadedField(v)
+			if !isF || !sf.Is("InputFile", "Reader") {
+				return
+			}
+			var bad []string
+			for _, r := range referrersOf(v) {
+				switch x := r.(type) {
+				case *ssa.DebugRef:
+				case ssa.CallInstruction:
+					if f := x.Common().StaticCallee(); f != nil && f.String() == "encoding/json.NewDecoder" {
+						continue
+					}
+					bad = append(bad, "used by "+p.RenderShort(x.Common().Value))
+				case *ssa.TypeAssert:
+					bad = append(bad, "type assertion to "+shortType(x.AssertedType))
+				default:
+					bad = append(bad, fmt.Sprintf("%T", r))
+				}
+			}
+			n++
+			c.check(len(bad) == 0, rule, fmt.Sprintf("input-reader-only-decoded %s #%d", shortName(fn), n), p.InstrPos(in), "the reader goes to json.NewDecoder only", "the caller's reader is also "+strings.Join(bad, "; ")+": what the run does then depends on the reader's dynamic type (a file is closed, a strings.Reader is not), and the caller's handle is in another state for the next run over the same input")
+		})
+	}
+	c.floor(rule, 1)
 }
